@@ -15,6 +15,8 @@ import (
 	openfgav1 "github.com/openfga/api/proto/openfga/v1"
 	"github.com/openfga/language/pkg/go/graph"
 	"github.com/openfga/language/pkg/go/transformer"
+	"github.com/openfga/language/pkg/go/utils"
+	"github.com/openfga/language/pkg/go/validation"
 	"google.golang.org/protobuf/encoding/protojson"
 	"google.golang.org/protobuf/proto"
 	"pgregory.net/rapid"
@@ -110,6 +112,11 @@ func c08DSL(text string) string {
 			return msg
 		}
 	}
+	if len(text) < 1500 {
+		if msg := c08Strings(text); msg != "" {
+			return msg
+		}
+	}
 	return ""
 }
 
@@ -157,6 +164,19 @@ func c08Model(origin string, pm *openfgav1.AuthorizationModel) string {
 	}); msg != "" {
 		return origin + ": " + msg
 	}
+	if msg := guarded("utils", size, func() {
+		for _, td := range pm.GetTypeDefinitions() {
+			for name, us := range td.GetRelations() {
+				_ = utils.IsRelationAssignable(us)
+				_, _ = utils.GetModuleForObjectTypeRelation(td, name)
+			}
+			_, _ = utils.GetModuleForObjectTypeRelation(td, "no-such-relation")
+			_ = utils.IsRelationAssignable(nil)
+		}
+		_, _ = utils.GetModuleForObjectTypeRelation(nil, "x")
+	}); msg != "" {
+		return origin + ": " + msg
+	}
 	if msg := guarded("WeightedAuthorizationModelGraphBuilder.Build", size, func() {
 		wg, err := graph.NewWeightedAuthorizationModelGraphBuilder().Build(pm)
 		if (wg == nil) == (err == nil) {
@@ -187,6 +207,47 @@ func c08JSON(text string) string {
 		return c08Model("loaded JSON model", pm)
 	}
 	return ""
+}
+
+// c08Strings: validators and line-number helpers on arbitrary strings.
+func c08Strings(text string) string {
+	return guarded("validators/line-number helpers", len(text), func() {
+		lines := strings.Split(text, "\n")
+		// every validator call compiles one or two large regexps (~0.7 ms each): a deterministic 1-in-16 sample of
+		// the inputs, whole text plus first two lines
+		var vs []string
+		if len(text)%16 == 0 {
+			vs = append([]string{text}, lines[:min(2, len(lines))]...)
+		}
+		for _, s := range vs {
+			if len(s) > 600 {
+				s = s[:600]
+			}
+			_ = validation.ValidateUser(s)
+			_ = validation.ValidateObject(s)
+			_ = validation.ValidateRelation(s)
+			_ = validation.ValidateRelationshipCondition(s)
+			_ = validation.ValidateType(s)
+			_ = validation.ValidateObjectID(s)
+			_ = validation.ValidateUserSet(s)
+			_ = validation.ValidateUserWildcard(s)
+			_ = validation.ValidateUserObject(s)
+		}
+		for _, name := range []string{"", "a", lines[0], "doc", "type"} {
+			for _, f := range []func(string, []string) int{utils.GetTypeLineNumber, utils.GetExtendedTypeLineNumber, utils.GetRelationLineNumber, utils.GetConditionLineNumber} {
+				i := f(name, lines)
+				if i < -1 || i >= len(lines) {
+					panic(fmt.Sprintf("line lookup returned %d for %d lines", i, len(lines)))
+				}
+				l, c := utils.ConstructLineAndColumnData(lines, i, name)
+				if i >= 0 && (l.Start != i || c.Start < 0 || c.Start > len(lines[i])) {
+					panic(fmt.Sprintf("ConstructLineAndColumnData returned line %d column %d for line %d of length %d", l.Start, c.Start, i, len(lines[i])))
+				}
+			}
+			_ = utils.GetExtendedRelationLineNumber(name, "a", lines)
+			_, _ = utils.ConstructLineAndColumnData(nil, -1, name)
+		}
+	})
 }
 
 func c08ModFile(text string) string {
@@ -536,7 +597,7 @@ func c08Scaling(in c08Input) (float64, string, bool) {
 const c08Rule = "(a) totality: rapid-drawn mutants/splices/hostile insertions over the repository corpus (model files, module files, syntax cases, JSON goldens, fga.mod cases) and over " +
 	"rendered documents, for TransformDSLToProto/JSON, TransformModularDSLToProto, TransformJSONStringToDSL, LoadJSONStringToProto, TransformModFile and the module merge (1-3 files); " +
 	"(b) rapid-generated degenerate protobuf models (unset rewrites, nil/empty child lists, nil difference operands, nil object relations, missing/empty metadata, list/map parameter " +
-	"without or with nested element type, empty and duplicate names) for the printer (both options), plain graph (+DOT, reversal, path queries, cycles on <= 12 nodes) and weighted Build; " +
+	"without or with nested element type, empty and duplicate names) for the printer (both options), utils.IsRelationAssignable / GetModuleForObjectTypeRelation, plain graph (+DOT, reversal, path queries, cycles on <= 12 nodes) and weighted Build; " +
 	"every call under recover and a 30 s watchdog; (c) error reporting: a document whose token sequence (independent lexer run) is not derivable from OpenFGAParser.g4 must be rejected; " +
 	"(d) boundedness: work (allocations, a deterministic proxy) of cold child processes for pumped inputs at sizes n,2n,4n (byte pumps over the corpus, n=64; 9 parametric model families " +
 	"for parse+graph builders, n=6..12) must not grow faster than exponent 2.5; thorough adds native fuzzing. Form feeds are excluded from pumps and mutants (recorded finding T5, " +
